@@ -201,6 +201,17 @@ def run(ctx, R, tier):
         again = rcfg.path_exists(fnodes, lambda n: n in fnodes, edge_ok=noexc)
         R.check(not again, "C17-R1", "receive_data|waitall-read-not-repeated", "after the MSG_WAITALL read returned data, that read is not issued again (it asks for the full size)",
                 rx.loc(fast[0]), "after a short MSG_WAITALL read the loop issues the full-size read again: the second read takes bytes of the next message")
+        # whether recv flags can be used is a fact about THIS socket (ssl sockets refuse them): the read with MSG_WAITALL is taken only under a test that looks at the
+        # socket it reads from, not only at module or configuration state (config.SSL says what future Pyro sockets are, not what this one is)
+        sockp = rx.params[0]
+
+        def about_the_socket(atom, pol):
+            return any(isinstance(x, ast.Name) and x.id == sockp for x in ast.walk(atom))
+        flagged = [c for c in fast if len(c.args) >= 2 or c.keywords]
+        ok_s = all(rcfg.guarded(x, lambda e: edge_has_fact(e, about_the_socket)) for c in flagged for x in ctx.node_of(rx, c))
+        R.check(ok_s, "C17-R1", "receive_data|flags-only-if-this-socket-takes-them", "the read that passes recv flags is guarded by a test of the socket it reads from", rx.loc(fast[0]),
+                "the MSG_WAITALL read is chosen without looking at `%s`: an ssl socket (which raises ValueError for non-zero recv flags) gets it whenever the global state says so - "
+                "the caller sees neither the bytes nor a ConnectionClosedError/TimeoutError" % sockp)
     chunkvar = unparse(ext[0].args[0]) if ext and ext[0].args else None
 
     def empty_chunk(atom, pol):
